@@ -561,6 +561,182 @@ void vf_harness(void) { const char* fmt; int L; g_L = L; /* (visible in traces) 
 )
 UNITS += [string_f]
 
+# ---------------------------------------------------------------------------------------------
+# split(sep, out) and replace(a, b): one turn of their scanning loops.  indexOf(pattern, i0) is strstr(str() + i0, pattern): the stub states its contract
+# (needs 0 <= i0 <= length, i.e. a start inside the text or at its NUL; returns -1 or the first position >= i0 where the pattern fits) and checks the precondition.
+def for_turn_rule(text):
+    """one turn of `for (int V = INIT; COND; STEP) BODY`:  `int V = *V_p; if (COND) { BODY STEP; } *V_p = V;`  (V's value on entry is the contract's *V_p;
+    test, body and step are the loop's own text)"""
+    import re
+    from vf.core import find_code, match_close
+    m = re.search(r'for\s*\(\s*int (\w+)\s*=\s*[^;]+;\s*([^;]+);\s*([^)]+)\)', text)
+    if not m:
+        return text, 0
+    b = find_code(text, '{', m.end())
+    if text[m.end():b].strip():
+        return text, 0
+    e = match_close(text, b)
+    v = m.group(1)
+    return text[:m.start()] + 'int %s = *%s_p; if (%s) { %s %s; } *%s_p = %s;' % (v, v, m.group(2), text[b:e + 1], m.group(3), v, v) + text[e + 1:], 1
+SCAN_PRE = r'''
+#include "vf_base.h"
+int nondet_int(void);
+int g_n, g_m, g_pieces, g_piece_from, g_piece_to, g_bcopies, g_tail_from, g_tail_len, g_done;
+static int INDEXOF_FROM(int i0) { __CPROVER_assert(0 <= i0 && i0 <= g_n, "indexOf(pattern, i0): the search starts inside the text (strstr must not start behind the NUL)");
+  int j = nondet_int(); __CPROVER_assume(j == -1 || (i0 <= j && j <= g_n - g_m)); return j; }
+static void OUT_PIECE(int i, int j) { __CPROVER_assert(0 <= i && i <= j && j <= g_n, "substring(i, j): 0 <= i <= j <= length (C03 contract of substring)"); g_pieces++; g_piece_from = i; g_piece_to = j; }
+'''
+split_turn = Unit(
+    'String_split_turn', 'C03',
+    cuts=[Cut('sp', S, r'^void String::split\(const String& sep, Array<String>& out\) const\s*$',
+              rules=[(r'out\.clear\(\);', '', 1), (r'int j=0, m=sep\.length\(\), n=length\(\);', 'int j=0, m=g_m, n=g_n;', 1),
+                     for_turn_rule,      # one turn of the for loop: its test, its body once, its own step expression
+                     (r'\bindexOf\(sep, i\)', 'INDEXOF_FROM(i)', 1), (r'out << substring\(i, j\);', 'OUT_PIECE(i, j);', 1)])],
+    text=SCAN_PRE + r'''
+void split_turn(int* i_p)
+__CPROVER_requires(__CPROVER_is_fresh(i_p, sizeof(int)) && 0 <= g_n && g_n <= 1000000 && 1 <= g_m && g_m <= 1000000 && 0 <= *i_p && *i_p <= g_n && g_pieces == 0)
+/* one turn emits exactly one piece [i, j): j is the next occurrence of the separator at or after i, or the end of the text; the next piece starts right behind that separator,
+   strictly further on (termination for a non-empty separator); the turn that reaches the end of the text moves i past it, which ends the loop */
+__CPROVER_ensures(g_pieces == 1 && g_piece_from == __CPROVER_old(*i_p) && g_piece_from <= g_piece_to && g_piece_to <= g_n)
+__CPROVER_ensures(*i_p == g_piece_to + g_m && *i_p > __CPROVER_old(*i_p))
+__CPROVER_ensures(g_piece_to == g_n ==> *i_p > g_n)
+__CPROVER_assigns(*i_p, g_pieces, g_piece_from, g_piece_to)
+@@sp@@
+void vf_harness(void) { int* p; split_turn(p); VF_CANARY(); }
+''',
+    entry='split_turn',
+    desc='String::split(sep, out), one turn for ANY text length, separator length >= 1 and search result: the piece is [i, next separator or end), substring arguments in range, indexOf never starts behind the NUL, '
+         'the next piece starts right after the separator and strictly further on; so the pieces tile the text with exactly one separator between neighbours (split then join is the identity: paper step over the turns)',
+    functions=['String::split(const String&, Array<String>&)'],
+    trusted=['indexOf(pattern, i0) = first occurrence at or after i0 or -1 (strstr, libc); substring by its contract (unit String_substring)'],
+    assumes=['the separator is not empty (the statement quantifies over non-empty separators; with an empty one the loop does not advance)'],
+    planted=[('sp', r'i=j\+m; \}', 'i=j+1; }')],
+)
+replace_turn = Unit(
+    'String_replace_turn', 'C03',
+    cuts=[Cut('rp', S, r'^String String::replace\(const String& a, const String& b\) const\s*$',
+              rules=[(r'int j = indexOf\(a\), m = a\.length\(\);\s*if\(j==-1\)\s*return \*this;\s*String out\(length\(\), 0\);\s*out << substring\(0, j\);',
+                      'int j = g_j0, m = g_m;   /* (prefix of the function: first occurrence j, out = text before it - not part of this turn) */', 1),
+                     (r'(?<![\w.>])length\(\)', 'g_n', None), (r'\bindexOf\(a, i\)', 'INDEXOF_FROM(i)', 1), (r'out << b;', 'g_bcopies++;', 1),
+                     (r'out\.append\(str\(\) \+ i, j - i\);', 'OUT_TAIL(i, j - i);', 1), (r'return out;', 'return;', 1), for_turn_rule])],
+    text=SCAN_PRE + r'''
+int g_j0;
+static void OUT_TAIL(int from, int len) { __CPROVER_assert(0 <= from && 0 <= len && from + len <= g_n, "append(str() + i, j - i) reads inside the text"); g_tail_from = from; g_tail_len = len; g_pieces++; }
+void replace_turn(int* i_p)
+__CPROVER_requires(__CPROVER_is_fresh(i_p, sizeof(int)) && 0 <= g_n && g_n <= 1000000 && 1 <= g_m && g_m <= 1000000 && 0 <= g_j0 && g_j0 <= g_n - g_m && *i_p == g_j0 + g_m && g_pieces == 0 && g_bcopies == 0)
+/* one turn writes one copy of b for the occurrence that ended at i, then the text up to the next occurrence (or the end); the next turn starts behind that occurrence, strictly further on */
+__CPROVER_ensures(g_bcopies == 1 && g_pieces == 1 && g_tail_from == __CPROVER_old(*i_p) && g_tail_from + g_tail_len <= g_n)
+__CPROVER_ensures(*i_p == g_tail_from + g_tail_len + g_m && *i_p > __CPROVER_old(*i_p))
+__CPROVER_assigns(*i_p, g_pieces, g_bcopies, g_tail_from, g_tail_len)
+@@rp@@
+void vf_harness(void) { int* p; replace_turn(p); VF_CANARY(); }
+''',
+    entry='replace_turn',
+    desc='String::replace(a, b), one turn of its loop for ANY text, pattern length >= 1 and search result: one copy of b per occurrence, the text between occurrences copied from inside the string, '
+         'indexOf never starts behind the NUL, strict progress',
+    functions=['String::replace(const String&, const String&) (loop)'],
+    trusted=['indexOf(pattern, i0) = first occurrence at or after i0 or -1 (strstr, libc); String::append by its contract (unit String_append)'],
+    assumes=['the pattern is not empty'],
+)
+UNITS += [split_turn, replace_turn]
+
+# ---------------------------------------------------------------------------------------------
+# trim() / trimmed() on every inline string (length 0..15, any bytes): result = the text without leading and trailing space / tab / LF / CR, computed independently in the harness
+TRIM_SPEC = r"""
+#define SPEC_WS(c) ((c) == ' ' || (c) == '\t' || (c) == '\n' || (c) == '\r')
+int nondet_int(void); char nondet_char(void);
+static bool myisspace(char c) @@isspace@@
+"""
+def _trim_unit(name, loc, call, result, desc, extra_cuts=(), extra_text=''):
+    return Unit(
+        name, 'C03',
+        cuts=helper_cuts() + [Cut('isspace', 'include/asl/defs.h', r'^inline bool myisspace\(char c\)\s*$')] + list(extra_cuts) + [Cut('body', S, loc, **SM, rules=RET_THIS, post=DEFARG_RULES)],
+        text=PRE + HELPERS + TRIM_SPEC + extra_text + r"""
+static void String_trim_body(String* self) @@body@@
+void vf_harness(void) {
+  String s; s._size = 0; s._len = nondet_int(); __CPROVER_assume(0 <= s._len && s._len < ASL_STR_SPACE);
+  char ref[ASL_STR_SPACE];
+  for (int i = 0; i < ASL_STR_SPACE; i++) { char c = nondet_char(); if (i < s._len) __CPROVER_assume(c != 0); else c = 0; s._space[i] = c; ref[i] = c; }
+  int n = s._len, I = 0, J;
+  while (I < n && SPEC_WS(ref[I])) I++;                       /* first character that is not white space (n if none) */
+  J = n - 1; while (J >= I && SPEC_WS(ref[J])) J--;           /* last one */
+  """ + call + r"""
+  __CPROVER_assert(""" + result + r"""._len == J - I + 1, "length of the trimmed text");
+  __CPROVER_assert(STR(""" + result + r""")[""" + result + r"""._len] == 0, "NUL at the length");
+  int k = nondet_int(); __CPROVER_assume(0 <= k && k < J - I + 1);
+  __CPROVER_assert(STR(""" + result + r""")[k] == ref[I + k], "the characters between the first and the last non-space character, unchanged and in order");
+  VF_CANARY();
+}
+""",
+        entry=None, unwind=18, floor=3, expect=['assertion'],
+        desc=desc, functions=[name.replace('String_', 'String::').replace('_inline', '')],
+    )
+trim_unit = _trim_unit('String_trim_inline', r'^String& String::trim\(\)\s*$', 'String_trim_body(&s);', 's',
+                       'String::trim() on EVERY inline string (0..15 bytes): the text between the first and last non-white-space character, in place, NUL-terminated at its length; whitespace-only and empty strings give the empty string')
+UNITS += [trim_unit]
+
+trimmed_unit = Unit(
+    'String_trimmed_inline', 'C03',
+    cuts=helper_cuts() + [Cut('isspace', 'include/asl/defs.h', r'^inline bool myisspace\(char c\)\s*$'),
+                          Cut('body', S, r'^String String::trimmed\(\) const\s*$', **SM, rules=[(r'return substring\((\w+), ([^;]+)\);', r'{ g_from = \1; g_to = \2; return; }', 1)])],
+    text=PRE + HELPERS + TRIM_SPEC + r"""
+int g_from, g_to;
+static void String_trimmed_body(String* self) @@body@@
+void vf_harness(void) {
+  String s; s._size = 0; s._len = nondet_int(); __CPROVER_assume(0 <= s._len && s._len < ASL_STR_SPACE);
+  char ref[ASL_STR_SPACE];
+  for (int i = 0; i < ASL_STR_SPACE; i++) { char c = nondet_char(); if (i < s._len) __CPROVER_assume(c != 0); else c = 0; s._space[i] = c; ref[i] = c; }
+  int n = s._len, I = 0, J;
+  while (I < n && SPEC_WS(ref[I])) I++;
+  J = n - 1; while (J >= I && SPEC_WS(ref[J])) J--;
+  String_trimmed_body(&s);
+  __CPROVER_assert(0 <= g_from && g_from <= g_to && g_to <= n, "substring(i, j): 0 <= i <= j <= length (C03 contract of substring)");
+  __CPROVER_assert(g_from == I && g_to == J + 1, "trimmed() is the substring from the first to the last non-white-space character");
+  VF_CANARY();
+}
+""",
+    entry=None, unwind=18, floor=2, expect=['assertion'],
+    desc='String::trimmed() on EVERY inline string: returns substring(first non-white-space, last non-white-space + 1), arguments in range also for empty and whitespace-only strings',
+    functions=['String::trimmed'], trusted=['substring by its contract (unit String_substring)'],
+    planted=[('body', r'j>=i', 'j>i')],
+)
+UNITS += [trimmed_unit]
+
+# String(int n, fmt, ...): the same retry loop on the string's own buffer (first attempt in the capacity the caller asked for)
+ctor_fmt = Unit(
+    'String_ctor_fmt', 'C03',
+    cuts=helper_cuts() + [Cut('body', S, r'^String::String\(int n, ASL_PRINTF_W1 const char\* fmt, \.\.\.\)\s*$', **SM,
+                              rules=[(r'va_list arg;', '', 1), (r'va_start\(arg, fmt\);', '', None), (r'va_end\(arg\);', '', None),
+                                     (r'\bvsnprintf\(([^,]+), ([^,]+), fmt, arg\)', r'VF_VSNPRINTF(\1, \2)', '+')], post=DEFARG_RULES + [(r'String_resize\((self), ([^;]*), false\);', r'String_resize(\1, \2, false, true);', None)])],
+    text=PRE + HELPERS + r"""
+int g_L; char g_ch; int g_calls, g_complete;
+static int VF_VSNPRINTF(char* p, int space) {
+  __CPROVER_assert(space > 0 && __CPROVER_w_ok(p, space), "vsnprintf is told no more room than the buffer it is given has");
+  int w = g_L < space ? g_L : space - 1;
+  if (g_k < w) p[g_k] = g_ch;
+  p[w] = 0;
+  g_calls++; g_complete = (g_L < space);
+  return g_L;
+}
+void String_ctor_fmt(String* self, int n, const char* fmt)
+__CPROVER_requires(__CPROVER_is_fresh(self, sizeof(String)) && 0 <= n && n <= NMAX)
+__CPROVER_requires(1 <= g_L && g_L <= NMAX && 0 <= g_k && g_k < g_L && g_ch != 0 && g_calls == 0)
+/* whatever capacity hint the caller gives: length = formatted length, NUL there, no NUL before, capacity above the length */
+__CPROVER_ensures(self->_len == g_L && STRP(self)[g_L] == 0 && STRP(self)[g_k] == g_ch && g_complete)
+__CPROVER_ensures((self->_size == 0 && self->_len < ASL_STR_SPACE) || self->_size > self->_len)
+__CPROVER_assigns(*self, g_calls, g_complete)
+@@body@@
+void vf_harness(void) { String* s; int n; const char* fmt; int L; g_L = L; String_ctor_fmt(s, n, fmt); VF_CANARY(); }
+""",
+    entry='String_ctor_fmt', unwind=3, variants={'': [NMAX]},
+    replay=replay.from_trace('C03/driver.cpp', ['g_L'], lambda v: ['fmt', v['g_L']]),
+    desc='String(int n, fmt, ...) for EVERY capacity hint n and EVERY output length 1..100000: vsnprintf is never told more room than the buffer has, the result has length = the formatted length with its NUL there',
+    functions=['String::String(int, const char*, ...)', 'String::resize', 'String::alloc'],
+    trusted=['vsnprintf modelled by its C99 contract (returns the untruncated length; stores min(L, space-1) bytes + NUL)'],
+    planted=[('body', r'n >= space\) && \+\+i', 'n > space) && ++i')],
+)
+UNITS += [ctor_fmt]
+
 # replay: where the trace recipe of a unit does not reproduce (or there is none) the driver's battery runs on the real library: asl::String against std::string for lengths
 # straddling 15/16, 20/24, 255/256 and 1 KiB - construction, +=, append/assign (also of own pieces), substring/substr, resize, formatting, search, split/join, replace, trim, integers
 _bat = replay.battery('C03/driver.cpp', ['battery'])
